@@ -682,7 +682,7 @@ class Engine:
 
     def run_ghost_updates(self, s, frame, when):
         con = getattr(frame, "contract", None)
-        if con is None or when != "before":
+        if con is None:
             return
         asserts = con.options.get("asserts")
         if not asserts or isinstance(s, (ast.While, ast.For, ast.Try, ast.With, ast.FunctionDef)):
@@ -693,6 +693,11 @@ class Engine:
             seg = " ".join((frame.module.segment(s) or "").split())
         for label, pattern, exprs in asserts:
             pat = " ".join(pattern.split())
+            after = pat.startswith(">")         # ">pattern": asserted AFTER the statement (for an `if`: after the whole statement) has executed normally
+            if after:
+                pat = pat[1:].strip()
+            if after != (when == "after"):
+                continue
             if (pat[1:] == seg) if pat.startswith("=") else (pat in seg):      # "=text": the whole statement, not a substring
                 self.vf.matched_asserts.add((con.key, label))
                 for j, ex in enumerate(exprs):
@@ -1226,6 +1231,7 @@ class Engine:
             # two loops over the same (unmodified) list see the same elements (ghost functions)
             ln_t = self.models.len_of_f(itd.t)
             self.assume(ln_t >= 0)
+            hidden[f"_seq{k}"] = itd       # the iterated (untracked) value itself, for invariants: elem(_seq<k>, j)
 
             def cond(h):
                 return h[f"_it{k}"].t < ln_t
